@@ -101,6 +101,71 @@ class _SwapIfElse(ast.NodeTransformer):
         return n
 
 
+class _ReturnTemp(ast.NodeTransformer):
+    """return <expr>  ->  result_tw = <expr>; return result_tw   (non-trivial expressions only)."""
+
+    def _block(self, body: List[ast.stmt]) -> List[ast.stmt]:
+        out: List[ast.stmt] = []
+        for st in body:
+            if isinstance(st, ast.Return) and st.value is not None and not isinstance(st.value, (ast.Name, ast.Constant)):
+                out.append(ast.copy_location(ast.Assign(targets=[ast.Name(id='result_tw', ctx=ast.Store())], value=st.value), st))
+                out.append(ast.copy_location(ast.Return(value=ast.Name(id='result_tw', ctx=ast.Load())), st))
+            else:
+                out.append(st)
+        return out
+
+    def generic_visit(self, node: ast.AST) -> ast.AST:
+        super().generic_visit(node)
+        for fld in ('body', 'orelse', 'finalbody'):
+            v = getattr(node, fld, None)
+            if isinstance(v, list) and v and isinstance(v[0], ast.stmt):
+                setattr(node, fld, self._block(v))
+        return node
+
+
+class _IfExpToIf(ast.NodeTransformer):
+    """x = a if c else b  ->  if c: x = a  else: x = b   (plain single-target assignments)."""
+
+    def visit_Assign(self, n: ast.Assign) -> ast.AST:
+        if isinstance(n.value, ast.IfExp) and len(n.targets) == 1 and isinstance(n.targets[0], ast.Name):
+            t = n.targets[0]
+            return ast.copy_location(ast.If(test=n.value.test, body=[ast.Assign(targets=[t], value=n.value.body)], orelse=[ast.Assign(targets=[ast.Name(id=t.id, ctx=ast.Store())], value=n.value.orelse)]), n)
+        return n
+
+
+class _AugToPlain(ast.NodeTransformer):
+    """x += e  ->  x = x + e   (name and attribute targets; subscript targets would evaluate the index twice)."""
+
+    def visit_AugAssign(self, n: ast.AugAssign) -> ast.AST:
+        if isinstance(n.target, ast.Name):
+            load: ast.expr = ast.Name(id=n.target.id, ctx=ast.Load())
+        elif isinstance(n.target, ast.Attribute) and isinstance(n.target.value, ast.Name):
+            load = ast.Attribute(value=n.target.value, attr=n.target.attr, ctx=ast.Load())
+        else:
+            return n
+        return ast.copy_location(ast.Assign(targets=[n.target], value=ast.BinOp(left=load, op=n.op, right=n.value)), n)
+
+
+class _LogEntry(ast.NodeTransformer):
+    """A debug log line at the top of every function of a module that already imports `log`."""
+
+    def __init__(self, has_log: bool) -> None:
+        self.has_log = has_log
+
+    def _fn(self, n: ast.AST) -> ast.AST:
+        self.generic_visit(n)
+        if not self.has_log:
+            return n
+        body = n.body  # type: ignore[attr-defined]
+        k = 1 if body and isinstance(body[0], ast.Expr) and isinstance(body[0].value, ast.Constant) and isinstance(body[0].value.value, str) else 0
+        call = ast.Expr(value=ast.Call(func=ast.Attribute(value=ast.Name(id='log', ctx=ast.Load()), attr='debug', ctx=ast.Load()), args=[ast.Constant(value='enter %s'), ast.Constant(value=n.name)], keywords=[]))  # type: ignore[attr-defined]
+        n.body = body[:k] + [call] + body[k:]  # type: ignore[attr-defined]
+        return n
+
+    visit_FunctionDef = _fn  # type: ignore[assignment]
+    visit_AsyncFunctionDef = _fn  # type: ignore[assignment]
+
+
 def make_twin(repo: str, dest: str, rename: bool, extra: str = '') -> None:
     src = os.path.join(repo, 'src', 'zeroconf')
     for dirpath, dirnames, filenames in os.walk(src):
@@ -118,6 +183,15 @@ def make_twin(repo: str, dest: str, rename: bool, extra: str = '') -> None:
                     tree = _FlipCompare().visit(tree)
                 if extra == 'swap':
                     tree = _SwapIfElse().visit(tree)
+                if extra == 'rettmp':
+                    tree = _ReturnTemp().visit(tree)
+                if extra == 'ifexp':
+                    tree = _IfExpToIf().visit(tree)
+                if extra == 'aug':
+                    tree = _AugToPlain().visit(tree)
+                if extra == 'log':
+                    has = any(isinstance(x, ast.ImportFrom) and any(a.name == 'log' for a in x.names) for x in tree.body)
+                    tree = _LogEntry(has).visit(tree)
                 text = ast.unparse(ast.fix_missing_locations(tree)) + '\n'
                 compile(text, out, 'exec')
                 open(out, 'w', encoding='utf-8').write(text)
@@ -127,7 +201,7 @@ def make_twin(repo: str, dest: str, rename: bool, extra: str = '') -> None:
 
 def run(repo: str = '/repo', props: str = 'all') -> int:
     rc_all = 0
-    kinds = [(False, ''), (True, ''), (False, 'flip'), (False, 'swap')]
+    kinds = [(False, ''), (True, ''), (False, 'flip'), (False, 'swap'), (False, 'rettmp'), (False, 'ifexp'), (False, 'aug'), (False, 'log')]
     if os.environ.get('VERIF_TWIN_KINDS'):
         want = os.environ['VERIF_TWIN_KINDS'].split(',')
         kinds = [k for k in kinds if (('rename' if k[0] else 'plain') if not k[1] else k[1]) in want]
